@@ -12,6 +12,7 @@ import threading
 from vlib import vtime
 
 PROPERTY = 'C19'
+EVALUATIONS_KEYS = ['scripts', 'thread_runs']
 LEVEL = 'exploration'
 RULE = ('seeded arrival scripts (gaps drawn around the wait time, bursts, long pauses, slow consumers), '
         'batch_size 1-6, wait 0-1 s or default, None/custom end markers, falsy items; a script is non-trivial '
@@ -98,7 +99,8 @@ def run_script(S, script, rng):
     arrivals = script['arrivals']
     clock = vtime.VClock(arrivals[0][0] - 0.5 if arrivals else 1000.0)
     q = vtime.ScriptedQueue(clock, arrivals)
-    S.time = clock  # the module-global clock of the code under test
+    restore, _nb = vtime.bind_clock(S, clock)  # the module-global clock(s) of the code under test
+    script['_restore'] = restore
     kwargs = {}
     if wait is not None:
         kwargs['batch_wait_time'] = wait
@@ -204,7 +206,6 @@ def run_case(case):
     rng = random.Random(case['seed'])
     if case['kind'] == 'threads':
         return run_threads(S, case, rng)
-    real_time = S.time
     obs = {'scripts': 0, 'batches': 0, 'full': 0, 'partial_timer': 0, 'partial_end': 0, 'ties_excluded': 0, 'items': 0}
     violations = []
     sigs = []
@@ -212,7 +213,12 @@ def run_case(case):
     try:
         for i in range(case['n_scripts']):
             script = make_script(rng)
-            viol, st = run_script(S, script, rng)
+            try:
+                viol, st = run_script(S, script, rng)
+            finally:
+                r = script.pop('_restore', None)
+                if r:
+                    r()
             obs['scripts'] += 1
             obs['items'] += len(script['arrivals']) - 1
             for k in ('batches', 'full', 'partial_timer', 'partial_end'):
@@ -231,7 +237,7 @@ def run_case(case):
                           'arrivals': [(round(a - script['arrivals'][0][0], 4), repr(x)) for a, x in script['arrivals']][:12],
                           'stats': st}
     finally:
-        S.time = real_time
+        pass
     return {'violations': violations, 'obs': obs, 'sigs': sigs, 'nontrivial': bool(sigs), 'sample': sample}
 
 
